@@ -25,6 +25,9 @@ type UpdCase struct {
 	EditKind string   `json:"edit_kind,omitempty"` // sub | ins | del
 	EditPos  int      `json:"edit_pos,omitempty"`  // scaled into the operand length
 	Lab      []string `json:"labels,omitempty"`
+	// Twin: name of a second file below rules/ that also matches the rule's prefix (a stale copy): the rules
+	// file is ambiguous, update must fail and write nothing
+	Twin string `json:"twin,omitempty"`
 }
 
 func (c UpdCase) Arg() string {
@@ -90,6 +93,16 @@ func genUpdCase(t *rapid.T, withEdit bool) UpdCase {
 	if !rf.FinalNL {
 		lab["no-final-newline"] = true
 	}
+	if rf.TrailBlank > 0 {
+		lab["blank-lines-at-end-of-file"] = true
+	}
+	if !withEdit && rapid.IntRange(0, 9).Draw(t, "twin") == 0 {
+		c.Twin = rapid.SampledFrom([]string{"OLD-932-APPLICATION-ATTACK-X.conf", "REQUEST-932-X.conf.orig", "zz-932-copy", "REQUEST-932-APPLICATION-ATTACK-RCE.conf~"}).Draw(t, "twinname")
+		if c.Twin == rf.Name {
+			c.Twin = "A-" + c.Twin
+		}
+		lab["two-files-match-the-rule-prefix"] = true
+	}
 	for _, r := range rf.Rules {
 		for _, cm := range r.Comments {
 			if strings.Contains(cm, "id:") {
@@ -124,6 +137,9 @@ func setupUpd(c UpdCase) *updEnv {
 	tree := cli.Tree(c.Prog.Tree())
 	tree["regex-assembly/"+c.Arg()+".ra"] = c.Prog.MainText()
 	tree["rules/"+c.Rules.Name] = text
+	if c.Twin != "" {
+		tree["rules/"+c.Twin] = text
+	}
 	tree["rules/REQUEST-901-INITIALIZATION.conf"] = "# other file\nSecRule ARGS \"@rx untouched\" \\\n    \"id:901100,\\\n    phase:1\"\n"
 	// a second, unrelated assembly file whose rule is in sync and which sorts after every 932 target
 	tree["regex-assembly/933100.ra"] = "insync\n"
@@ -169,6 +185,16 @@ func checkC11(c UpdCase) Outcome {
 			return out
 		}
 		out.Labels = append(out.Labels, "target-does-not-compile")
+		return out
+	}
+	if c.Twin != "" {
+		if up.Exit == 0 || len(diff) > 0 {
+			out.Violation = fmt.Sprintf("two files below rules/ match the rule's prefix (%s, %s) but update exits %d and changed %v", c.Rules.Name, c.Twin, up.Exit, diff)
+			return out
+		}
+		out.NonTrivial = true
+		out.Key = e.original + "\x00twin\x00" + c.Twin + c.Arg()
+		out.Sample = map[string]any{"arg": c.Arg(), "twin": c.Twin, "update_exit": up.Exit}
 		return out
 	}
 	if up.Exit != 0 {
